@@ -111,3 +111,10 @@ Definition unquote (s : str) : str := unquote_items (items s).
 
 (* the byte values of the items (raw characters listed as themselves) *)
 Definition item_val (i : item) : N := match i with Byt b => b | Raw c => c end.
+
+(* the string starts with "%2f" or "%2F" (an encoded slash in either spelling) *)
+Definition starts_enc_slash (s : str) : bool :=
+  match s with
+  | c0 :: c1 :: c2 :: _ => (c0 =? PCT) && (c1 =? 50) && ((c2 =? 102) || (c2 =? 70))
+  | _ => false
+  end.
